@@ -70,10 +70,10 @@ PROPS = {
         "assumptions": ["as C01"],
     },
     "C15": {
-        "engines": ["seq", "seq0", "seqrb", "conc", "seqx", "concx"],
+        "engines": ["seq", "seqrb", "conc", "seqx", "concx"],   # (E-seq0 - zero quantities throughout - left out: C15 quantifies over positive quantities)
         "footprint": {"state": ["stats"]},
         "nontrivial": r"^match txs=\[[^\]]+\]",
-        "rule": "E-seq/E-seq0 histories; the four counters compared after every op and judged by C15.ok against the events the harness "
+        "rule": "E-seq histories (positive quantities) and E-seqrb (with rebuilds); the four counters compared after every op and judged by C15.ok against the events the harness "
                 "counted from the calls' return values; non-trivial = the history contains a match that executed",
         "assumptions": ["every order carries the level's price (what an order book guarantees); sequential half only so far"],
     },
